@@ -96,6 +96,63 @@ theorem build_draw_accepts_iff (n : Option String) (cs : List (Contour R)) (ks :
 
 end Fresh
 
+/-! ## 1b. Point pens that predate identifiers ("identifiers where the protocol carries them") -/
+
+/-- A pen that lacks the `identifier` keyword in some (or all) of its methods is told, by a glyph in ANY
+source state (new, shallow-loaded, fully loaded), exactly the calls a pen of today's protocol is told,
+in the same order, minus the identifiers it has no keyword for (`capEv`): the fallbacks of
+`Contour.drawPoints`, `Component.drawPoints` and `Glyph._drawShallowLoadedContours` drop nothing else. -/
+theorem restricted_pen_stream (caps : PenCaps) (g : Glyph R) : g.drawTo caps = g.draw.map (capEv caps) :=
+  drawTo_eq_map caps g
+
+/-- a pen of today's protocol sees the stream `Glyph.draw` describes -/
+theorem full_pen_stream (g : Glyph R) : g.drawTo PenCaps.full = g.draw := drawTo_full g
+
+/-- What the fallback keeps of a point: coordinates, segment type, smooth flag and NAME always; the
+identifier exactly when the pen's `addPoint` accepts it.  Likewise a component keeps its base glyph and
+transformation, a contour its points. -/
+theorem capEv_keeps (caps : PenCaps) (p : Point R) (k : Component R) :
+    (∃ q, capEv caps (.addPoint p) = .addPoint q ∧ q.x = p.x ∧ q.y = p.y ∧ q.seg = p.seg ∧
+      q.smooth = p.smooth ∧ q.name = p.name ∧ q.ident = (if caps.point then p.ident else none)) ∧
+    (∃ j, capEv caps (.addComponent k) = .addComponent j ∧ j.base = k.base ∧ j.t = k.t ∧
+      j.ident = (if caps.component then k.ident else none)) ∧
+    capEv caps (.endPath : Ev R) = .endPath := by
+  refine ⟨?_, ?_, rfl⟩
+  · cases h : caps.point <;> simp [capEv, h]
+  · cases h : caps.component <;> simp [capEv, h]
+
+section Fresh
+variable [OfNat R 0] [OfNat R 1]
+
+/-- A glyph in any source state drawn THROUGH such a pen (a filter pen written against the old protocol,
+in front of an empty glyph's own pen): the empty glyph receives the outline with every contour, point,
+type, smooth flag, name, component and transformation, and with the identifiers the pen could be told —
+provided those are pairwise distinct. -/
+theorem rebuild_through_restricted_pen (caps : PenCaps) (n : Option String) (src : Glyph R)
+    (h : (identsOf (src.outline.map (Contour.cap caps)) (src.components.map (Component.cap caps))).Nodup) :
+    ∃ g', build false (src.drawTo caps) (Glyph.fresh n) = .ok g' ∧
+      g'.contours = src.outline.map (Contour.cap caps) ∧
+      g'.components = src.components.map (Component.cap caps) ∧
+      g'.draw = src.draw.map (capEv caps) := by
+  obtain ⟨g', h1, h2, h3, _, h5⟩ := build_draw_empty n _ _ h
+  exact ⟨g', by rw [drawTo_eq_outline]; exact h1, h2, h3, by rw [h5, ← drawTo_eq_outline, drawTo_eq_map]⟩
+
+/-- Through a pen of the protocol as it was before identifiers were added, EVERY glyph — whatever
+identifiers it carries, even repeated ones — is reproduced in an empty glyph: same contours, point
+coordinates, types, smooth flags, names (`Contour.eraseIds` removes identifiers and nothing else), same
+components and transformations; no identifier is registered. -/
+theorem rebuild_through_old_pen (n : Option String) (src : Glyph R) :
+    ∃ g', build false (src.drawTo PenCaps.old) (Glyph.fresh n) = .ok g' ∧
+      g'.contours = src.outline.map Contour.eraseIds ∧
+      g'.components = src.components.map (fun k => { k with ident := none }) ∧ g'.ids = [] := by
+  obtain ⟨g', h1, h2, h3, h4, _⟩ := build_draw_empty n (src.outline.map (Contour.cap PenCaps.old))
+    (src.components.map (Component.cap PenCaps.old)) (by rw [identsOf_old]; exact List.nodup_nil)
+  refine ⟨g', by rw [drawTo_eq_outline]; exact h1, ?_, ?_, by rw [h4, identsOf_old]⟩
+  · rw [h2]; exact List.map_congr_left (fun c _ => Contour.cap_old c)
+  · rw [h3]; exact List.map_congr_left (fun k _ => Component.cap_old k)
+
+end Fresh
+
 /-- The driver's pen op runs `buildKeep` (which also says what glyph a REJECTED call leaves behind): on
 accepted streams it is `build`. -/
 theorem buildKeep_accepts_iff (skip : Bool) (evs : List (Ev R)) (g g' : Glyph R) :
@@ -471,6 +528,19 @@ example : exA.Valid ∧ exD.Valid ∧ exF.Valid := by decide
 example : (identsOf exA.contours exA.components).Nodup := by decide
 example : (build false exA.draw (Glyph.fresh none)).toOption.map (·.draw) = some exA.draw := by decide
 example : (build false exA.draw (Glyph.fresh none)).toOption.map (·.ids) = some ["c1", "p2", "p1", "c3"] := by decide
+/-- a pen that predates identifiers: the stream of `exA` (names "n", "top", a smooth curve point) arrives with
+every name and flag and without any identifier, from the new and from the shallow-loaded glyph alike; a pen
+that only lacks the keyword in `addPoint` still gets the contour identifiers -/
+example : (exGlyph "A" exA).drawTo PenCaps.old = (exShallow "A" exA).drawTo PenCaps.old ∧
+    (exGlyph "A" exA).drawTo PenCaps.old = exA.draw.map (capEv PenCaps.old) ∧
+    ((exGlyph "A" exA).drawTo PenCaps.old).take 5 =
+      [.beginPath none, .addPoint ⟨10, 0, none, false, some "n", none⟩, .addPoint ⟨10, 10, none, false, none, none⟩,
+       .addPoint ⟨0, 10, some .curve, true, none, none⟩, .addPoint ⟨0, 0, some .line, false, some "top", none⟩] ∧
+    ((exShallow "A" exA).drawTo ⟨true, false, true⟩).take 4 =
+      [.beginPath (some "c1"), .addPoint ⟨10, 0, none, false, some "n", none⟩, .addPoint ⟨10, 10, none, false, none, none⟩,
+       .addPoint ⟨0, 10, some .curve, true, none, none⟩] := by decide
+example : (build false ((exShallow "A" exA).drawTo PenCaps.old) (Glyph.fresh none)).toOption.map (fun g => (g.contours, g.ids)) =
+    some (exA.contours.map Contour.eraseIds, []) := by decide
 /-- a repeated identifier is rejected -/
 example : build false (drawContour exCurve ++ drawContour exCurve) (Glyph.fresh (none : Option String)) = (.error .assertion : Except Err (Glyph Int)) := by decide
 /-- shallow, full and new states of the same content: same stream; the shallow one holds its contour and
